@@ -49,3 +49,8 @@ p["assumptions"] = [a for a in p.get("assumptions", []) if not a.startswith("sli
 ]
 p["full_statement_status"] += ("; cached hops (stream sysrc, model RedirectCache): termination proved at full strength after the fix: commit for C18-a/C18-c (cached_terminates: no run is cut as runaway; found_loop_508: a loop through stored hops ends in 508 without contact); "
                                "a cold loop through cache-enabled hops still parks on its own lock (`selfwait`: 30 s, then 503 — an error response, late; not judged); an uncacheable redirect on a cache-enabled rule is not followed (finding C18-d, proved on the model: uncacheable_redirect_not_followed); warm = cold: proved for a request answered by its first hop (fill_then_hit), oracle-checked on the implementation over whole chains, and stated for whole chains on the model in Scratch/C18Cache_statements.lean (unproved)")
+
+# C18: a destination that canonicalises its query with a redirect (two URLs that differ in their query are two URLs)
+p = PROPS["C18"]
+p["streams"] += [S("canonq", 36, 144)]
+p["rule"] += " | canonq: /s?<query> on a restarting rule; the destination answers 302 to /s?a=1&b=2 (rooted or absolute Location) unless the query is already that, then 200; 9 spellings of the query (reordered, trailing &, empty pair, extra key, escaped value, ';' separator, empty, bare '?', repeated key) x 2 Location forms, enumerated; compared with Model.Redirect.follow under a query-sensitive origin; oracle: the client receives the 200"
